@@ -14,6 +14,8 @@ EXTENDS Integers, Sequences
 
 MC_Models  == {"SIM", "TWO"}
 MC_Models0 == {}
+MC_ModelsTWO == {"TWO"}
+MC_ModelsSIM == {"SIM"}
 MC_Blocks  == {"A", "B"}
 MC_Solvers0 == {}
 MC_Solvers1 == {"s1"}
@@ -22,6 +24,7 @@ MC_LogNames == {"log", "eqn", "timeseries", "step", "steadystate_0"}
 MC_Trace1 == {0}
 MC_Trace2 == {0, 1}
 MC_FuncBodies == {"f1", "f2"}
+MC_FuncBodies1 == {"f1"}
 MC_Trace3 == {0, 1, 3}
 
 MC_Shape ==
